@@ -105,7 +105,7 @@ def run_property(prop, tier, seed, root):
         if isinstance(pr, dict) and pr.get(prop):
             return re.search(pr[prop], oname) is not None
         return True
-    jobs = runner.run_contracts(interp, contracts, select, timeout_ms=timeout_ms, prefix=f"{prop}/", ob_filter=cfg.get("obligation_filter"))
+    jobs = runner.run_contracts(interp, contracts, select, timeout_ms=timeout_ms, prefix=f"{prop}/", ob_filter=cfg.get("obligation_filter"), tier=tier)
     pb = None
     findings, undecided, errors = [], [], []
     counts = {"obligations": 0, "discharged": 0, "refuted": 0, "undecided": 0}
